@@ -274,6 +274,115 @@ func TestC19(t *testing.T) {
 		}
 		r.Case(fmt.Sprintf("msg-dest-reuse:%d:%d", i, l), true, "msg-dest-reuse")
 	}
+	// ... and what Deserialize handed out earlier stays what it was: the payload slices taken from the
+	// object after each Deserialize, and the buffer a caller gave to NewMsgData, are not scribbled
+	// over when the same object receives the next message
+	{
+		type held struct {
+			slice, want []byte
+			step        int
+		}
+		var helds []held
+		callerBuf := patterned(24, 90)
+		callerWant := append([]byte(nil), callerBuf...)
+		d2 := mailbox.NewMsgData(3, callerBuf)
+		for i, l := range []int{16, 16, 9, 20, 0, 5, 24, 24} {
+			want := patterned(l, 60+i)
+			wire, err := mailbox.NewMsgData(uint8(i), want).Serialize()
+			if err != nil || d2.Deserialize(wire) != nil {
+				continue
+			}
+			helds = append(helds, held{d2.Payload, append([]byte(nil), want...), i})
+			for _, h := range helds {
+				if !bytes.Equal(h.slice, h.want) {
+					r.Violate("C19/msgdata-earlier-payload-overwritten", fmt.Sprintf("one MsgData object received message #%d (%d bytes); the payload it had handed out for message #%d now reads %s, it was %s",
+						i+1, l, h.step+1, hx(h.slice[:min(8, len(h.slice))]), hx(h.want[:min(8, len(h.want))])), map[string]int{"step": i, "earlier": h.step})
+					break
+				}
+			}
+			if !bytes.Equal(callerBuf, callerWant) {
+				r.Violate("C19/msgdata-earlier-payload-overwritten", fmt.Sprintf("the buffer given to NewMsgData was overwritten when the object received message #%d", i+1), map[string]int{"step": i})
+				callerWant = append([]byte(nil), callerBuf...)
+			}
+			r.Case(fmt.Sprintf("msg-dest-alias:%d", i), true, "msg-dest-reuse")
+		}
+	}
+	// every Serialize returns a buffer of its own: a caller (or a transport that masks in place) may
+	// overwrite what it got without changing what the next Serialize of an equal message returns
+	{
+		msgs := []gbn.Message{&gbn.PacketFIN{}, &gbn.PacketSYNACK{}, &gbn.PacketSYN{N: 20}, &gbn.PacketACK{Seq: 3},
+			&gbn.PacketNACK{Seq: 4}, &gbn.PacketData{Seq: 5, FinalChunk: true, Payload: []byte{1, 2, 3}}, &gbn.PacketData{Seq: 6, IsPing: true}}
+		for _, m := range msgs {
+			b1, err := m.Serialize()
+			if err != nil {
+				continue
+			}
+			ref := append([]byte(nil), b1...)
+			for i := range b1 {
+				b1[i] ^= 0xa5
+			}
+			b2, err2 := m.Serialize()
+			if err2 != nil || !bytes.Equal(b2, ref) {
+				r.Violate("C19/serialize-shares-buffer", fmt.Sprintf("%T: the slice returned by Serialize was overwritten by its caller; the next Serialize of the same message returned %s instead of %s", m, hx(b2), hx(ref)), fmt.Sprintf("%T", m))
+			}
+			r.Case(fmt.Sprintf("ser-private:%T:%s", m, hx(ref)), true, "serialize-private-buffer")
+		}
+		md := mailbox.NewMsgData(1, []byte{9, 8, 7})
+		b1, _ := md.Serialize()
+		ref := append([]byte(nil), b1...)
+		for i := range b1 {
+			b1[i] ^= 0xa5
+		}
+		if b2, err := md.Serialize(); err != nil || !bytes.Equal(b2, ref) {
+			r.Violate("C19/serialize-shares-buffer", "MsgData: the slice returned by Serialize was overwritten by its caller; the next Serialize returned other bytes", "MsgData")
+		}
+		r.Case("ser-private:MsgData", true, "serialize-private-buffer")
+	}
+	// large payloads, around every power of two from 2^16 to 2^24 (no model line: the oracle is the
+	// round trip itself)
+	for k := 16; k <= 24; k++ {
+		for d := -6; d <= 6; d++ {
+			l := 1<<k + d
+			if !thorough() && k > 20 && k < 24 && d%3 != 0 {
+				continue
+			}
+			pl := make([]byte, l)
+			for i := 0; i < l; i += 509 {
+				pl[i] = byte(i>>9) | 1
+			}
+			pl[l-1] = 0x5c
+			ser, err := mailbox.NewMsgData(2, pl).Serialize()
+			back := mailbox.NewMsgData(0, nil)
+			var derr error
+			if err == nil {
+				derr = back.Deserialize(ser)
+			}
+			if err != nil || derr != nil || !bytes.Equal(back.Payload, pl) {
+				r.Violate("C19/msgdata-roundtrip", fmt.Sprintf("MsgData with a payload of %d bytes (2^%d%+d): Serialize err %v, Deserialize of its own serialisation err %v, payload equal: %v",
+					l, k, d, err, derr, err == nil && derr == nil && bytes.Equal(back.Payload, pl)), l)
+			}
+			r.Case(fmt.Sprintf("msg-large:%d", l), true, "msg-value-large")
+			if k <= 22 {
+				dm := &gbn.PacketData{Seq: uint8(k), FinalChunk: true, Payload: pl}
+				gs, gerr := dm.Serialize()
+				var gb gbn.Message
+				var gderr error
+				if gerr == nil {
+					gb, gderr = gbn.Deserialize(gs)
+				}
+				okd := false
+				if gerr == nil && gderr == nil {
+					if dd, ok := gb.(*gbn.PacketData); ok {
+						okd = dd.Seq == dm.Seq && dd.FinalChunk && !dd.IsPing && bytes.Equal(dd.Payload, pl)
+					}
+				}
+				if !okd {
+					r.Violate("C19/gbn-roundtrip", fmt.Sprintf("DATA packet with a payload of %d bytes: Serialize err %v, Deserialize err %v, equal: false", l, gerr, gderr), l)
+				}
+				r.Case(fmt.Sprintf("gbn-large:%d", l), true, "gbn-msg-data-large")
+			}
+		}
+	}
 	gbnMsgCase(r, &gbn.PacketFIN{}, "gbn-msg-fin")
 	gbnMsgCase(r, &gbn.PacketSYNACK{}, "gbn-msg-synack")
 	for _, l := range []int{15, 16, 255, 256, 1000, 65535, 65536, 65537} {
